@@ -343,6 +343,8 @@ class IdlReader:
             if c.opt(";"):
                 return ("fwd", False, n)
             base = None
+            if c.peek() == "::" and c.peek(1) == ":":      # `S:::a::B` is `S` `:` `::a::B`
+                c.t[c.i], c.t[c.i + 1] = ":", "::"
             if c.opt(":"):
                 base = self.scoped()
             c.eat("{")
@@ -405,9 +407,44 @@ class IdlReader:
 
 
 def read_idl(text):
-    if "#" in text:
-        raise Bad("preprocessor directive")
-    return [("def", d) for d in IdlReader(text).spec()]
+    """pp-item list of a text: directives at line starts, whole definitions between them"""
+    if "#" not in text:
+        return [("def", d) for d in IdlReader(text).spec()]
+    stack = [[]]
+    heads = []
+    chunk = []
+
+    def flush():
+        t = "\n".join(chunk)
+        del chunk[:]
+        if t.strip():
+            stack[-1].extend(("def", d) for d in IdlReader(t).spec())
+    for line in text.split("\n"):
+        w = line.split()
+        if w and w[0] in ("#define", "#ifdef", "#ifndef") and len(w) >= 2:
+            flush()
+            if w[0] == "#define":
+                if len(w) > 2 and not w[2].startswith(("//", "/*")):
+                    raise Bad("#define with a value")
+                stack[-1].append(("define", w[1]))
+            else:
+                heads.append((w[0] == "#ifndef", w[1]))
+                stack.append([])
+        elif w and w[0].startswith("#endif"):
+            flush()
+            if not heads:
+                raise Bad("#endif")
+            neg, n = heads.pop()
+            body = stack.pop()
+            stack[-1].append(("if", neg, n, body))
+        elif w and w[0].startswith("#"):
+            raise Bad("directive " + w[0])
+        else:
+            chunk.append(line)
+    flush()
+    if heads:
+        raise Bad("unterminated #if")
+    return stack[0]
 
 
 # ------------------------------------------------------------ Rust text -> Rust items
@@ -1132,7 +1169,7 @@ def one_spec(r, override=None):
 
 
 def gen(r, tier):
-    n = {"quick": 450, "search": 3000, "thorough": 12000}[tier]
+    n = {"quick": 450, "search": 3000, "thorough": 5000}[tier]
     cases = []
     for _ in range(n):
         items = one_spec(r)
@@ -1183,6 +1220,10 @@ def corpus():
         'struct S { long Port; };',
         'struct S { u8 a; };',
         'typedef sequence<long> LS, LT; const long K = 3 * 4;',
+        'typedef long Bar; const Bar X = 3; module M { typedef short Sh; module N { const ::M::Sh Y = 4; const string<5> Z = "ab"; }; };',
+        '@final struct A { @id long a; @optional @key long b; @value(3) long c; }; enum E { @value(1) P, @id(4) Q };',
+        'module a { module b { module c { struct D { long x; }; union U switch(octet) { default: ::a::b::c::D d[2][2]; }; }; }; };',
+        'struct P { long parent; }; struct C : P { P parent; }; struct Vec { long String; }; struct S { Vec v; i32 w; };',
     ]
     for t in fixed:
         out.append(("spec", read_idl(t), t))
@@ -1511,7 +1552,7 @@ def extra(ctx, binary):
     from vlib.core import run_harness, known_ids
     import random
     r = random.Random("C41-compile-%d" % ctx.seed)
-    want = {"quick": 40, "thorough": 700}.get(ctx.tier, 40)
+    want = {"quick": 40, "thorough": 300}.get(ctx.tier, 40)
     batch = []           # (kind, case)
     for c in corpus():
         batch.append(("corpus", c))
